@@ -142,8 +142,8 @@ Section Exec.
   Variable y : strategy.
   (* read-only views: constants and borrowed inputs (get_value_from_constant_or_input) *)
   Variable ext : id -> option bid.
-  (* run inputs that were passed as owned values (they start out in temp_values) *)
-  Variable owned_in : id -> bool.
+  (* the ids of the run inputs, however passed *)
+  Variable is_in : id -> bool.
 
   Definition is_value (v : id) : bool :=
     match get_node g v with Some Value => true | _ => false end.
@@ -302,12 +302,12 @@ Section Exec.
     let s1 := match temp s v with Some old => drop s old | None => s end in
     set_temp s1 (upd (temp s1) v (Some b)).
 
-  (* temp_values.extend(output_ids.zip(outputs)...filter(not an owned run input)): [bufs] are the
+  (* temp_values.extend(output_ids.zip(outputs)...filter(not a run input)): [bufs] are the
      buffers the operator returned.  (The filter is the `fix:` for finding F11b: a value supplied
      by the caller is never replaced by a computed one.) *)
   Fixpoint save (s : st) (oids : list (option id)) (bufs : list bid) : st :=
     match oids, bufs with
-    | Some v :: r, b :: bs => save (if owned_in v then drop s b else bind s v b) r bs
+    | Some v :: r, b :: bs => save (if is_in v then drop s b else bind s v b) r bs
     | None :: r, b :: bs => save (drop s b) r bs
     | [], bs => fold_left drop bs s
     | _ :: _, [] => s
@@ -344,53 +344,78 @@ Section Exec.
         dec_all s2 r
     end.
 
-  (* one iteration of `for (step, &op_node_id) in plan.iter().enumerate()` *)
+  (* one iteration of `for (step, &op_node_id) in plan.iter().enumerate()`, in four parts *)
+
+  (* 1. the in-place decision, taking the in-place inputs and the by-value captures *)
+  Definition step_take (s : st) (o : id) (n : op_node) : res (st * list (nat * bid) * list (id * bid)) :=
+    let cs := cands s o n in
+    let ip := negb (match cs with [] => true | _ => false end)
+              && forallb (fun c => takeable s (snd c)) cs && y_policy y o in
+    match (if ip then take_all s cs else ROk (s, [])) with
+    | RFail f => RFail f
+    | ROk (s1, taken) =>
+        let '(s2, moved) := if s_sub S o then take_caps s1 (cap_deps n) else (s1, []) in
+        ROk (s2, taken, moved)
+    end.
+
+  (* 2. collecting the inputs (and, for a subgraph operator, the captured values it reads) *)
+  Definition step_args (s2 : st) (n : op_node) (taken : list (nat * bid)) (moved : list (id * bid))
+    : res (list (option V)) :=
+    match gather s2 taken 0 (op_inputs n) with
+    | RFail f => RFail f
+    | ROk args =>
+        match gather_caps s2 moved (cap_deps n) with
+        | RFail f => RFail f
+        | ROk cargs => ROk (args ++ cargs)
+        end
+    end.
+
+  (* 3. running the operator *)
+  Definition step_run (o : id) (taken : list (nat * bid)) (all : list (option V)) : option (list V) :=
+    let ps := map fst taken in
+    match taken with
+    | [] => s_run S o all
+    | _ => s_run_ip S o (pick_vals ps all) (blank ps all)
+    end.
+
+  (* run_in_place: reuse the first owned buffer for output 0, or hand it back to the pool *)
+  Definition reuse_choice (s2 : st) (o : id) (taken : list (nat * bid)) (vals : list V)
+    : option bid * list bid :=
+    match taken, vals with
+    | (_, b0) :: tk, x0 :: _ =>
+        match heap s2 b0 with
+        | Some old => if s_reuse S o old x0 then (Some b0, map snd tk) else (None, b0 :: map snd tk)
+        | None => (None, b0 :: map snd tk)
+        end
+    | _, _ => (None, map snd taken)
+    end.
+
+  (* 4. buffers of the outputs, saving them, releasing what is no longer needed *)
+  Definition step_finish (s2 : st) (o : id) (n : op_node) (taken : list (nat * bid))
+             (moved : list (id * bid)) (vals : list V) : st :=
+    let '(first, rest) := reuse_choice s2 o taken vals in
+    let s3 := fold_left release rest s2 in
+    let '(s4, bufs) := alloc_outs s3 first vals in
+    let s5 := fold_left release (map snd moved) s4 in
+    let s6 := save s5 (op_outputs n) bufs in
+    let s7 := add_trace s6 (o, map fst taken, match first with Some _ => true | None => false end) in
+    dec_all s7 (deps g n).
+
   Definition step (s : st) (o : id) : res st :=
     match get_op g o with
     | None => RFail FPlan
     | Some n =>
-        let cs := cands s o n in
-        let ip := negb (match cs with [] => true | _ => false end)
-                  && forallb (fun c => takeable s (snd c)) cs && y_policy y o in
-        match (if ip then take_all s cs else ROk (s, [])) with
+        match step_take s o n with
         | RFail f => RFail f
-        | ROk (s1, taken) =>
-            let '(s2, moved) := if s_sub S o then take_caps s1 (cap_deps n) else (s1, []) in
-            match gather s2 taken 0 (op_inputs n) with
+        | ROk (s2, taken, moved) =>
+            match step_args s2 n taken moved with
             | RFail f => RFail f
-            | ROk args =>
-                match gather_caps s2 moved (cap_deps n) with
-                | RFail f => RFail f
-                | ROk cargs =>
-                    let all := args ++ cargs in
-                    let ps := map fst taken in
-                    let r := match taken with
-                             | [] => s_run S o all
-                             | _ => s_run_ip S o (pick_vals ps all) (blank ps all)
-                             end in
-                    match r with
-                    | None => RFail (FOp o)
-                    | Some vals =>
-                        if (length vals <? length (op_outputs n))%nat then RFail (FOutputs o)
-                        else
-                          (* run_in_place: reuse the first owned buffer or hand it back *)
-                          let '(first, rest) :=
-                            match taken, vals with
-                            | (_, b0) :: tk, x0 :: _ =>
-                                match heap s2 b0 with
-                                | Some old => if s_reuse S o old x0 then (Some b0, map snd tk)
-                                              else (None, b0 :: map snd tk)
-                                | None => (None, b0 :: map snd tk)
-                                end
-                            | _, _ => (None, map snd taken)
-                            end in
-                          let s3 := fold_left release rest s2 in
-                          let '(s4, bufs) := alloc_outs s3 first vals in
-                          let s5 := fold_left release (map snd moved) s4 in
-                          let s6 := save s5 (op_outputs n) bufs in
-                          let s7 := add_trace s6 (o, ps, match first with Some _ => true | None => false end) in
-                          ROk (dec_all s7 (deps g n))
-                    end
+            | ROk all =>
+                match step_run o taken all with
+                | None => RFail (FOp o)
+                | Some vals =>
+                    if (length vals <? length (op_outputs n))%nat then RFail (FOutputs o)
+                    else ROk (step_finish s2 o n taken moved vals)
                 end
             end
         end
